@@ -1182,6 +1182,13 @@ func c15compare(c *Ctx) func(req, impl, model string) bool {
 			}
 			return c15sameClasses(req, impl, model)
 		}
+		if strings.HasPrefix(req, "qnum ") {
+			if model == "?" { // outside the exact domain of the number model (float64 rounding, non-ASCII text)
+				c.Count("model=comparison undetermined (qnum)")
+				return true
+			}
+			c.Count("model=compared (qnum)")
+		}
 		return impl == model
 	}
 }
